@@ -28,7 +28,7 @@ import core
 from ser import rat
 
 LEAN_MODULE = "Optyx.Props.C06b"
-EXTRA_MODULES = ["Optyx.Props.PinsC06", "Optyx.Props.SolveTie"]   # transcription anchors (harness/source_pins.py)
+EXTRA_MODULES = ["Optyx.Props.PinsC06", "Optyx.Props.SolveTie", "Optyx.Props.ConstraintTie"]   # transcription anchors (harness/source_pins.py)
 THEOREMS = [
     "Optyx.Props.C06.pass_optimal_feasible",
     "Optyx.Props.C06.scipy_optimal_feasible",
@@ -47,6 +47,8 @@ THEOREMS = [
     "Optyx.Props.SolveTie.finish_status_eq",
     "Optyx.Props.SolveTie.retryKwargs_pin",
     "Optyx.Props.SolveTie.solutionKwargs_pin",
+    "Optyx.Props.ConstraintTie.solve_violation_eq",
+    "Optyx.Props.ConstraintTie.senses_solve_eq",
     "Optyx.Props.PinsC06.anchors",
 ]
 ASSUMPTIONS = [
